@@ -122,15 +122,23 @@ tag its long name says where it is placed) appended to section `t` -/
 inductive SeedReq
   | fault (f : Fault)
   | dup (t : Sec) (e : Entry)
+  | edits (l : List (Sec × Nat × Str × AttrVal))   -- several "set attribute `a` to `v` on entry `i` of section `t`" at once
 
 def seedReqOf (j : Json) : Except String SeedReq := do
   if (← getString j "k") == "dupAt" then
     pure (.dup (← secOf (← getString j "t")) (← entryOf (← getVal j "e")))
+  else if (← getString j "k") == "edits" then
+    pure (.edits (← (← getArr j "l").mapM fun x => do
+      pure (← secOf (← getString x "t"), ← getNat x "i", ← getStr x "a", ← valOf (← getVal x "v"))))
   else pure (.fault (← faultOf j))
 
 def seedAnswer (env : Env) (s : Schema) : SeedReq → Json
   | .fault f =>
     jobj (("adm", jbool (admissible env f s)) :: ("kind", Json.str (reprStr f.kind)) :: seededJson env (seed f s))
+  | .edits l =>
+    let s' := l.foldl (fun acc x => acc.modify x.1 x.2.1 (withAttr x.2.2.1 x.2.2.2)) s
+    jobj (("adm", jbool true) :: ("kind", Json.str "edits") ::
+          ("valid", jarr (l.map fun x => jbool (decide (x.2.2.1 ∈ validAttrs s' x.1)))) :: seededJson env s')
   | .dup t e =>
     let s' := s.append t e
     jobj (("adm", jbool (dupAdmissible s t e)) :: ("kind", Json.str "dupAt") ::
